@@ -35,9 +35,7 @@ func header(in string) bool {
 		// Normalize keeps the case of a word's first letter, so fold it: a
 		// marker like "A." has to be dropped there just as it is when matching.
 		if listMarker[strings.ToLower(p)] {
-			if e != ')' {
-				return true
-			}
+			return true
 		}
 		// Check for patterns like 1.2.3
 		for _, r := range p {
